@@ -565,8 +565,10 @@ inline PoolCfg pool_cfg(int size)
     RCP<const Basic> x = symbol("x"), y = symbol("y");
     auto R = [](long a, long b) { return RCP<const Basic>(Rational::from_two_ints(a, b)); };
     PoolCfg c;
-    // ordered simplest first; size -1 (4 leaves), 0 (5 leaves) .. 3 (16 leaves)
-    c.leavesV = {{"x", x}, {"y", y}, {"2", integer(2)}, {"-1/2", R(-1, 2)}};
+    // ordered simplest first; size -2 (3 leaves), -1 (4 leaves), 0 (5 leaves) .. 3 (16 leaves)
+    c.leavesV = {{"x", x}, {"y", y}, {"2", integer(2)}};
+    if (size >= -1)
+        c.leavesV.push_back({"-1/2", R(-1, 2)});
     if (size >= 0)
         c.leavesV.push_back({"2.5", real_double(2.5)});
     if (size >= 1) {
